@@ -43,7 +43,7 @@ for _f in sorted(_glob.glob(_os.path.join(_os.path.dirname(_os.path.abspath(__fi
 # 16 cores (measured per-case costs from quick runs; DESIGN.md §7.6). Factors applied to the
 # builders' original thorough counts; C01-C03 are so cheap that they get more instead.
 _THOROUGH_SCALE = {"C01": 4, "C02": 4, "C03": 4, "C14": 0.15, "C16": 0.5, "C18": 0.5, "C19": 0.45, "C25": 0.45, "C26": 0.6,
-                   "C32": 0.3, "C36": 0.75}
+                   "C32": 0.3, "C35": 0.4, "C36": 0.75}
 for _id, _f in _THOROUGH_SCALE.items():
     for _t in CHECKS[_id]["tests"]:
         _t["thorough"] = max(_t["quick"], int(_t["thorough"] * _f))
